@@ -144,6 +144,9 @@ type Exec struct {
 	sleepWeak bool
 	ranges    map[int32]urange
 	assertLog []assertRec
+	raceSeq   int
+	oblMsg    string
+	raceMark  int
 	nclock    int
 	ghost     map[string]Value
 	havocs    map[string]bool
